@@ -100,7 +100,7 @@ function genSpec(seed, idx) {
     const anyLt = () => (namedImpl.length && (!lts.length || rng.chance(1, 5)) ? rng.pick(namedImpl) : rng.pick(lts));
     const outerLt = () => (rng.chance(1, 4) ? null : anyLt()); // null = anonymous `&T`
     const isStatic = mixedSelf ? false : rng.chance(1, 3);
-    const self = isStatic ? null : { lt: mixedSelf ? rng.pick(lts) : outerLt(), mut: rng.chance(1, 5) };
+    const self = isStatic ? null : { lt: mixedSelf ? rng.pick(lts) : outerLt(), mut: rng.chance(1, 4) };
     const params = [];
     const np = rng.below(4);
     for (let p = 0; p < np; p++) {
@@ -170,15 +170,21 @@ function genSpec(seed, idx) {
     // special-method attributes change how the binding exposes the method (`new T(..)`, a property), not what it borrows
     let special = null;
     if (isStatic && (rkind === "box" || rkind === "resbox") && ret.ty === owner.name && !methods.some((x) => x.owner === owner.name && x.special === "constructor") && rng.chance(1, 2)) special = "constructor";
+    else if (!isStatic && params.length === 0 && self.mut && (rkind === "optbox" || rkind === "optref") && !methods.some((x) => x.owner === owner.name && x.special === "iterator") && rng.chance(3, 4)) special = "iterator";
     else if (!isStatic && params.length === 0 && rng.chance(1, 2)) special = "getter";
     for (const [l, sh] of addBoundLate) addBound(l, sh);
     methods.push({ owner: owner.name, name: "m" + m, static: isStatic, lts, implLts, implBounds, self, params, ret, bounds, special, forced });
   }
-  return { seed, idx, opaques, structs, outs, methods };
+  return { seed, idx, opaques, structs, outs, methods, ltScheme: rng.below(3) };
 }
 
 // ---- Rust text --------------------------------------------------------------------------------------
-const lt = (l) => (l === "static" ? "'static" : "'" + l);
+// How lifetimes are *spelled* in the Rust source (desc.json and the model keep the internal names a..d, s0, s1): the
+// generated JS names its edge arrays after the spelled names, and code that matches names textually must not care.
+// Scheme 1 and 2 use names that are suffixes of each other, longer-first and shorter-first in declaration order.
+const LT_SCHEMES = [{}, { a: "metadata", b: "data", c: "ta", d: "a", s0: "sdata", s1: "s" }, { a: "a", b: "ta", c: "data", d: "metadata", s0: "s", s1: "ns" }];
+let LT_NAMES = {};
+const lt = (l) => (l === "static" ? "'static" : "'" + (LT_NAMES[l] || l));
 function tyArgs(args) { return args.length ? "<" + args.map(lt).join(", ") + ">" : ""; }
 function sliceTy(enc, l) {
   const r = l ? "&" + lt(l) + " " : "&";
@@ -213,6 +219,7 @@ function generics(lts, bounds) {
   return "<" + lts.map((l) => { const bs = bounds.filter((b) => b[0] === l).map((b) => lt(b[1])); return lt(l) + (bs.length ? ": " + bs.join(" + ") : ""); }).join(", ") + ">";
 }
 export function rustSource(spec) {
+  LT_NAMES = LT_SCHEMES[spec.ltScheme || 0];
   let s = "// generated by /verif/sim/js/gen.mjs — seed " + spec.seed + " bridge " + spec.idx + "\n#[diplomat::bridge]\nmod ffi {\n    use diplomat_runtime::{DiplomatOption, DiplomatSlice, DiplomatStr, DiplomatStr16, DiplomatStr16Slice, DiplomatStrSlice, DiplomatUtf8StrSlice};\n\n";
   for (const o of spec.opaques) {
     const fields = o.lts.length ? "(" + o.lts.map((l) => "pub &" + lt(l) + " u8").join(", ") + ")" : "(pub u8)";
@@ -360,9 +367,12 @@ function catalogueSpec() {
     // an opaque parameter with a 'static argument before / after the lending one, plain and optional
     M("O0", "m19", { lts: ["a", "b"], params: [op("p0", "O2", "b", ["static", "a"])], ret: box("O1", ["a"]) }),
     M("O0", "m20", { lts: ["a", "b"], params: [{ name: "p0", kind: "optopaque", ty: "O2", lt: "b", args: ["a", "static"] }, { name: "p1", kind: "optopaque", ty: "O2", lt: "b", args: ["static", "a"] }], ret: box("O1", ["a"]) }),
+    // iterators: `next(&mut self)` yields values that borrow for the iterator type's own lifetime, not from the iterator
+    { ...M("O1", "m21", { lts: [], implLts: ["s0"], self: { lt: null, mut: true }, ret: { kind: "optref", ty: "O0", lt: "s0", args: [] } }), special: "iterator" },
+    { ...M("O2", "m22", { lts: [], implLts: ["s0", "s1"], self: { lt: null, mut: true }, ret: { kind: "optbox", ty: "O1", lt: null, args: ["s1"] } }), special: "iterator" },
     M("O2", "m12", { lts: ["a"], implLts: ["s0", "s1"], self: { lt: "a" }, params: [{ name: "p0", kind: "optopaque", ty: "O0", lt: "a", args: [] }], ret: { kind: "optref", ty: "O0", lt: "a", args: [] } }),
   ];
-  return { seed: 0, idx: -1, catalogue: true, opaques, structs, outs, methods };
+  return { seed: 0, idx: -1, catalogue: true, opaques, structs, outs, methods, ltScheme: 1 };
 }
 
 /** Signatures whose methods do NOT restate a bound that a used type's definition implies. Diplomat's own validation is
